@@ -23,6 +23,7 @@ PRELUDE = (
     'vt = true; vnt = bool(); vc = 2 + 3 * ii; vnc = num() * ii; vr = tup(1, "a", 2.5); vnr = tup(); '
     'vtab = tab(2, 5); vtabs = tab(2, "x"); vtab2 = tab(2, tab(2, 1)); vtabr = tab(2, tup(1, "a")); vntab = tab(); vetab = tab(0, 1); '
     'vu = null; '
+    'if false then uq = 5; us = "a"; ut = tab(1, 1); ur = tup(1, "a"); ub = raw("b"); end if; '
     'function f1(x) return undefined is begin return x; end; '
     'function fnull() return integer is begin return int(); end; '
 )
@@ -47,12 +48,14 @@ V_FULL = [
     "tab(2,1)", 'tab(0,"")', "tab()", "vtab", "vtabs", "vtab2", "vtabr", "vntab", "vetab", "tab(1, num())",
     # untyped null, function results
     "null", "vu", "f1(1)", "fnull()",
+    # variables that exist (compiled) but were never assigned
+    "uq", "us", "ut", "ur", "ub",
 ]
 V_QUICK = ["0", "-1", "256", "vimax", "vimin", "vni", "1.5", "vinf", "vnan", "vnd", '""', '"a"', '"12"', "vns", "vnul",
            'raw("a")', "vnb", "vb", "true", "vnt", "vc", "vnc", "vr", "vnr", "tup()", "vtab", "vtabs", "vtab2", "vtabr", "vntab", "vetab",
-           "null", "vu", "fnull()", "int()", "num()", "str()", "raw()", "bool()", "tab()", "2", "vs"]
+           "null", "vu", "fnull()", "int()", "num()", "str()", "raw()", "bool()", "tab()", "2", "vs", "uq", "us", "ut", "ur"]
 V_SMALL = ["0", "-1", "vimax", "vimin", "vni", "1.5", "vnan", "vnd", '""', '"a"', "vns", "vnul", 'raw("a")', "vnb", "vnt", "vr", "vtab", "vntab",
-           "null", "vu", "2", "vs"]
+           "null", "vu", "2", "vs", "uq", "us"]
 V_SIZE = ["null", "int()", "vni", "-1", "0", "1", "2", "65536", "vi", "1.5", '"a"', "vnd"]   # capped: allocation exhaustion is out of scope
 
 B1 = ["floor", "abs", "sign", "str", "num", "ceil", "sin", "cos", "tan", "atan", "int", "sqrt", "log", "exp", "log10", "asin", "acos",
